@@ -138,28 +138,29 @@ def parse_model(line):
 
 
 class Case:
-    __slots__ = ('idx', 'kind', 'schema', 'mut', 'dir', 'xml', 'sexp', 'impl', 'model', 'files_left', 'base')
+    __slots__ = ('idx', 'kind', 'schema', 'mut', 'xml', 'impl', 'model', 'files_left', 'base')
 
     def __init__(self, idx, kind, schema, mut, base):
         self.idx, self.kind, self.schema, self.mut, self.base = idx, kind, schema, mut, base
         self.impl = self.model = None
         self.files_left = False
+        self.xml = None
 
 
 def run_sbeppc(exe, workdir, c):
-    c.dir = os.path.join(workdir, 'c%d' % c.idx)
-    os.makedirs(c.dir, exist_ok=True)
+    d = os.path.join(workdir, 'c%d_%d' % (c.base, c.idx))
+    os.makedirs(d, exist_ok=True)
     xml, linemap = M.render(c.schema)
     c.xml = xml
-    path = os.path.join(c.dir, 'schema.xml')
+    path = os.path.join(d, 'schema.xml')
     with open(path, 'w', encoding='utf-8') as f:
         f.write(xml)
-    outdir = os.path.join(c.dir, 'gen')
+    outdir = os.path.join(d, 'gen')
     rc, out = sbeppc.run(exe, path, outdir)
     c.impl = parse_sbeppc(rc, out, linemap)
     if c.impl['verdict'] != 'accepted':
         c.files_left = os.path.isdir(outdir) and any(fs for _, _, fs in os.walk(outdir))
-    shutil.rmtree(c.dir, ignore_errors=True)
+    shutil.rmtree(d, ignore_errors=True)
     return c
 
 
@@ -173,13 +174,12 @@ def model_batch(exe, lines):
 
 def case_dict(c):
     m = c.mut
-    d = {'kind': c.kind, 'rule': m.rule if m else 'none', 'position': m.position if m else 'unedited',
-         'expected_class': (m.cls if m else None), 'edit': (m.note if m else ''),
-         'sbeppc': c.impl['verdict'], 'sbeppc_class': c.impl.get('cls'),
-         'model': c.model['verdict'], 'model_class': c.model.get('cls'),
-         'spec': 'rules hold' if c.model['rules'] else 'rule broken',
-         'spec_classes': sorted({v[0] for v in c.model['viol']})}
-    return d
+    return {'kind': c.kind, 'rule': m.rule if m else 'none', 'position': m.position if m else 'unedited',
+            'expected_class': (m.cls if m else None), 'edit': (m.note if m else ''),
+            'sbeppc': c.impl['verdict'], 'sbeppc_class': c.impl.get('cls'),
+            'model': c.model['verdict'] if c.model else None, 'model_class': c.model.get('cls') if c.model else None,
+            'spec': ('rules hold' if c.model['rules'] else 'rule broken') if c.model else None,
+            'spec_classes': sorted({v[0] for v in c.model['viol']}) if c.model else []}
 
 
 def replay_of(c, kind, why):
@@ -188,45 +188,51 @@ def replay_of(c, kind, why):
                          'spec': {'rules': c.model['rules'], 'violations': ['%s@%s' % (a, '/'.join(b)) for a, b in c.model['viol']]}},
             'mutator': (dict(rule=c.mut.rule, cls=c.mut.cls, path=c.mut.path, position=c.mut.position, expect=c.mut.expect,
                              note=c.mut.note) if c.mut else None),
-            'case': case_dict(c)}
+            'base_schema': c.base, 'case': case_dict(c)}
 
 
-def judge(chk, c, stats):
+STAT_KEYS = ['evaluated', 'valid_schemas', 'mutants', 'boundary_accept_cases', 'impl_ne_spec', 'impl_ne_model',
+             'impl_ne_spec_location', 'unclassified', 'sbeppc_crashes', 'class_and_entity_equal', 'class_in_hash_order_set',
+             'mutator_ne_spec', 'rejected_but_files_written', 'generated_schema_rejected_by_all', 'sbeppc_accepts', 'sbeppc_rejects']
+
+
+def judge(rep, c, stats):
+    """rep(kind, what, replay): kind = 'failure' (impl != spec) | 'unproved' (correspondence)"""
     impl, mod = c.impl, c.model
     stats['evaluated'] += 1
     if impl['verdict'] == 'crashed':
         stats['sbeppc_crashes'] += 1
-        chk.report_failure(replay_of(c, 'impl≠spec', 'sbeppc neither accepted nor rejected with a diagnostic (crash/abort): '
+        rep('failure', None, replay_of(c, 'impl≠spec', 'sbeppc neither accepted nor rejected with a diagnostic (crash/abort): '
                                                    'no located diagnostic, exit status %s' % impl.get('rc')))
         return
+    stats['sbeppc_accepts' if impl['verdict'] == 'accepted' else 'sbeppc_rejects'] += 1
     spec_ok = mod['rules']
     spec_classes = {v[0] for v in mod['viol']}
     # --- impl vs spec
     if (impl['verdict'] == 'accepted') != spec_ok:
         stats['impl_ne_spec'] += 1
-        chk.report_failure(replay_of(c, 'impl≠spec',
-                                     'sbeppc accepted a schema that breaks a rule' if not spec_ok
-                                     else 'sbeppc rejected a schema that breaks no rule'))
+        rep('failure', None, replay_of(c, 'impl≠spec', 'sbeppc accepted a schema that breaks a rule' if not spec_ok
+                                       else 'sbeppc rejected a schema that breaks no rule'))
         return
     if impl['verdict'] == 'rejected':
         if impl['cls'] == 'unclassified':
             stats['unclassified'] += 1
-            chk.report_unproved('diagnostic text matches no class of the regex table', replay_of(c, 'unclassified', impl['msg']))
+            rep('unproved', 'diagnostic text matches no class of the regex table', replay_of(c, 'unclassified', impl['msg']))
             return
         if impl['cls'] not in spec_classes:
             stats['impl_ne_spec'] += 1
-            chk.report_failure(replay_of(c, 'impl≠spec', 'sbeppc reports a rule that the specification does not consider broken'))
+            rep('failure', None, replay_of(c, 'impl≠spec', 'sbeppc reports a rule that the specification does not consider broken'))
             return
         if impl['path'] is not None and (impl['cls'], tuple(impl['path'])) not in set(mod['viol']):
             stats['impl_ne_spec_location'] += 1
-            chk.report_failure(replay_of(c, 'impl≠spec', 'the diagnostic is located at an entity where the rule is not broken'))
+            rep('failure', None, replay_of(c, 'impl≠spec', 'the diagnostic is located at an entity where the rule is not broken'))
             return
         if c.files_left:
             stats['rejected_but_files_written'] += 1
     # --- impl vs model
     if impl['verdict'] != mod['verdict']:
         stats['impl_ne_model'] += 1
-        chk.report_unproved('impl≠model (implementation agrees with the specification): verdict', replay_of(c, 'impl≠model', ''))
+        rep('unproved', 'impl≠model (implementation agrees with the specification): verdict', replay_of(c, 'impl≠model', ''))
         return
     if impl['verdict'] == 'rejected':
         exact = impl['cls'] == mod['cls'] and (impl['path'] is None or tuple(impl['path']) == mod['path'])
@@ -237,31 +243,81 @@ def judge(chk, c, stats):
             stats['class_in_hash_order_set'] += 1
         else:
             stats['impl_ne_model'] += 1
-            chk.report_unproved('impl≠model (implementation agrees with the specification): diagnostic class/entity',
-                                replay_of(c, 'impl≠model', ''))
+            rep('unproved', 'impl≠model (implementation agrees with the specification): diagnostic class/entity',
+                replay_of(c, 'impl≠model', ''))
             return
     # --- the mutator's own expectation (a fourth, independent statement of the rule)
     m = c.mut
     if m is not None:
         if m.expect == 'accept' and not spec_ok:
             stats['mutator_ne_spec'] += 1
-            chk.report_unproved('mutator expects acceptance, the specification finds a broken rule', replay_of(c, 'mutator≠spec', ''))
+            rep('unproved', 'mutator expects acceptance, the specification finds a broken rule', replay_of(c, 'mutator≠spec', ''))
         elif m.expect == 'reject':
             hit = (m.cls in spec_classes) if m.path is None else ((m.cls, tuple(m.path)) in set(mod['viol']))
             if not hit:
                 stats['mutator_ne_spec'] += 1
-                chk.report_unproved('the rule the mutator broke is not in the specification\'s violation list',
-                                    replay_of(c, 'mutator≠spec', ''))
+                rep('unproved', 'the rule the mutator broke is not in the specification\'s violation list',
+                    replay_of(c, 'mutator≠spec', ''))
+    elif not spec_ok:
+        stats['generated_schema_rejected_by_all'] += 1
 
 
-def sample_value_mutants(ms, rng, keep):
-    """the literal grids are large: keep every (position kind, literal) at least once per run, thin the rest"""
-    out = []
-    for m in ms:
-        if m.rule == 'value' and rng.random() > keep:
+def gen_schema(seed, i):
+    rng = random.Random((seed * 1000003 + i) * 31 + 8)
+    g = S.Gen(rng)
+    return g.schema(), g.feat
+
+
+def job(args):
+    """one worker: schemas `idxs` (with all mutants when `with_mut`), sbeppc + model + judgement"""
+    seed, idxs, with_mut, keep, exe, model, workdir = args
+    stats = dict.fromkeys(STAT_KEYS, 0)
+    feat, rules_hist, cls_hist, pos_hist = {}, {}, {}, {}
+    reports, samples, nontrivial = [], [], 0
+    cases = []
+    for i in idxs:
+        sch, f = gen_schema(seed, i)
+        for k, v in f.items():
+            feat[k] = feat.get(k, 0) + v
+        cases.append(Case(len(cases), 'valid', sch, None, i))
+        if with_mut:
+            krng = random.Random(seed * 31 + i)
+            for m in M.mutants(sch, random.Random(seed * 7919 + i)):
+                if m.rule == 'value' and krng.random() > keep:
+                    continue
+                cases.append(Case(len(cases), 'mutant' if m.expect == 'reject' else 'boundary', m.schema, m, i))
+    for c in cases:
+        run_sbeppc(exe, workdir, c)
+    answers = model_batch(model, ['verdict ' + M.to_sexp(c.schema) for c in cases])
+    seen = set()
+
+    def rep(kind, what, replay):
+        reports.append((kind, what, replay))
+    for c, a in zip(cases, answers):
+        c.model = parse_model(a)
+        if c.model is None:
+            reports.append(('unproved', 'model-verdict', {'answer': a[:300], 'schema_xml': c.xml}))
             continue
-        out.append(m)
-    return out
+        stats['valid_schemas' if c.kind == 'valid' else 'mutants' if c.kind == 'mutant' else 'boundary_accept_cases'] += 1
+        if c.mut:
+            rules_hist[c.mut.rule] = rules_hist.get(c.mut.rule, 0) + 1
+            cls_hist[str(c.mut.cls)] = cls_hist.get(str(c.mut.cls), 0) + 1
+            pk = re.sub(r'\d+', 'N', c.mut.position)
+            pos_hist[pk] = pos_hist.get(pk, 0) + 1
+            seen.add((c.base, c.mut.rule, c.mut.cls, tuple(c.mut.path or ()), c.mut.position, c.mut.note))
+        else:
+            seen.add((c.base,))
+        judge(rep, c, stats)
+        if c.mut and len(samples) < 2 and c.idx % 397 == 3:
+            samples.append({'rule': c.mut.rule, 'position': c.mut.position, 'edit': c.mut.note, 'sbeppc': c.impl,
+                            'model': {k: c.model[k] for k in ('verdict', 'cls', 'path') if k in c.model}})
+    return {'stats': stats, 'feat': feat, 'rules': rules_hist, 'cls': cls_hist, 'pos': pos_hist, 'reports': reports,
+            'samples': samples, 'distinct': len(seen), 'cases': len(cases)}
+
+
+def merge(dst, src):
+    for k, v in src.items():
+        dst[k] = dst.get(k, 0) + v
 
 
 def run(chk):
@@ -272,10 +328,8 @@ def run(chk):
     thorough = chk.tier == 'thorough'
     n_valid = 1500 if thorough else 150
     n_mut = 200 if thorough else 20
-    stats = dict.fromkeys(['evaluated', 'valid_schemas', 'mutants', 'boundary_accept_cases', 'impl_ne_spec', 'impl_ne_model',
-                           'impl_ne_spec_location', 'unclassified', 'sbeppc_crashes', 'class_and_entity_equal',
-                           'class_in_hash_order_set', 'mutator_ne_spec', 'rejected_but_files_written',
-                           'generated_schema_rejected_by_both'], 0)
+    keep = 0.35
+    stats = dict.fromkeys(STAT_KEYS, 0)
     model = chk.model_exe()
     if model is None:
         chk.report_unproved('model-driver-build', 'sbepp_model does not build')
@@ -288,63 +342,31 @@ def run(chk):
     shutil.rmtree(workdir, ignore_errors=True)
     os.makedirs(workdir)
     feat, rules_hist, cls_hist, pos_hist = {}, {}, {}, {}
+    ncases = distinct = 0
     try:
-        cases = []
-        for i in range(n_valid):
-            rng = random.Random((chk.seed * 1000003 + i) * 31 + 8)
-            g = S.Gen(rng)
-            sch = g.schema()
-            for k, v in g.feat.items():
-                feat[k] = feat.get(k, 0) + v
-            cases.append(Case(len(cases), 'valid', sch, None, i))
-            if i < n_mut:
-                ms = list(M.mutants(sch, random.Random(chk.seed * 7919 + i)))
-                ms = sample_value_mutants(ms, random.Random(chk.seed * 31 + i), 0.35 if not thorough else 0.5)
-                for m in ms:
-                    cases.append(Case(len(cases), 'mutant' if m.expect == 'reject' else 'boundary', m.schema, m, i))
-        chk.log('%d cases (%d generated schemas, mutants of %d of them)' % (len(cases), n_valid, n_mut))
-        with cf.ThreadPoolExecutor(core.NPROC) as ex:
-            list(ex.map(lambda c: run_sbeppc(exe, workdir, c), cases))
-        chk.log('sbeppc done')
-        lines = ['verdict ' + M.to_sexp(c.schema) for c in cases]
-        nchunk = max(1, min(core.NPROC, len(lines) // 200))
-        chunks = [lines[k::nchunk] for k in range(nchunk)]
-        with cf.ThreadPoolExecutor(nchunk) as ex:
-            outs = list(ex.map(lambda ch: model_batch(model, ch), chunks))
-        answers = [None] * len(lines)
-        for k, o in enumerate(outs):
-            answers[k::nchunk] = o
-        chk.log('model done')
-        nontrivial = set()
-        for c, a in zip(cases, answers):
-            c.model = parse_model(a)
-            if c.model is None:
-                chk.report_unproved('model-verdict', {'answer': a[:300], 'schema_xml': c.xml})
-                continue
-            if c.kind == 'valid':
-                stats['valid_schemas'] += 1
-                if c.impl['verdict'] == 'rejected' and c.model['verdict'] == 'rejected' and not c.model['rules']:
-                    # a generator slip, not a verdict: all three agree on rejection
-                    stats['generated_schema_rejected_by_both'] += 1
-            elif c.kind == 'mutant':
-                stats['mutants'] += 1
-            else:
-                stats['boundary_accept_cases'] += 1
-            if c.mut:
-                rules_hist[c.mut.rule] = rules_hist.get(c.mut.rule, 0) + 1
-                cls_hist[str(c.mut.cls)] = cls_hist.get(str(c.mut.cls), 0) + 1
-                pk = re.sub(r'\d+', 'N', c.mut.position)
-                pos_hist[pk] = pos_hist.get(pk, 0) + 1
-                nontrivial.add((c.base, c.mut.rule, c.mut.cls, tuple(c.mut.path or ()), c.mut.position, c.mut.note))
-            else:
-                nontrivial.add((c.base,))
-            judge(chk, c, stats)
-            if c.mut and len(chk.cov['samples']) < 6 and c.idx % 997 == 3:
-                chk.sample({'rule': c.mut.rule, 'position': c.mut.position, 'edit': c.mut.note, 'sbeppc': c.impl,
-                            'model': {k: c.model[k] for k in ('verdict', 'cls', 'path') if k in c.model}})
+        jobs = [(chk.seed, [i], True, keep, exe, model, workdir) for i in range(n_mut)]
+        rest = list(range(n_mut, n_valid))
+        jobs += [(chk.seed, rest[k:k + 25], False, keep, exe, model, workdir) for k in range(0, len(rest), 25)]
+        with cf.ProcessPoolExecutor(core.NPROC) as ex:
+            for r in ex.map(job, jobs):
+                merge(stats, r['stats'])
+                merge(feat, r['feat'])
+                merge(rules_hist, r['rules'])
+                merge(cls_hist, r['cls'])
+                merge(pos_hist, r['pos'])
+                ncases += r['cases']
+                distinct += r['distinct']
+                for s in r['samples']:
+                    chk.sample(s)
+                for kind, what, replay in r['reports']:
+                    if kind == 'failure':
+                        chk.report_failure(replay)
+                    else:
+                        chk.report_unproved(what, replay)
+        chk.log('%d cases (%d generated schemas, every single-rule edit of %d of them)' % (ncases, n_valid, n_mut))
         chk.cov['evaluations'] = stats['evaluated']
-        chk.cov['distinct_nontrivial'] = len(nontrivial)
-        chk.cov['programs'] = len(cases)
+        chk.cov['distinct_nontrivial'] = distinct
+        chk.cov['programs'] = ncases
         chk.cov['traces_validated_against_impl'] = stats['evaluated']
         chk.cov['disagreements_checked'] = stats['evaluated']
         chk.cov['rule'] = ('one evaluation = one schema (a generated valid schema, a single-rule-breaking edit of one at one '
